@@ -233,7 +233,8 @@ def dumpQueries (s : State) (named : List (String × String)) : List String :=
     | some v => "Qt " ++ viewLine v
     | none => "Qt " ++ toString id ++ " notfound") ++
   ids.map (fun id => match qUtxrs s id with
-    | some rs => "QU " ++ toString id ++ " " ++ joinOrDash (rs.map (fun r => encStr r.req ++ "*" ++ toString r.amount))
+    | some rs => "QU " ++ toString id ++ " " ++ joinOrDash (rs.map (fun r => encStr r.req ++ "*" ++ toString r.amount ++ "*" ++ nftStr r.nft ++ "*" ++
+        toString r.created ++ "*" ++ (rcptStr r.rcpt).replace "*" "^"))
     | none => "QU " ++ toString id ++ " err") ++
   named.map (fun k => match lookup s.st (natTok k.1) (strTok k.2) with
     | some r => "Qu " ++ k.1 ++ " " ++ k.2 ++ " req=" ++ encStr r.req ++ " amt=" ++ toString r.amount ++ " denom=" ++ encStr r.denom ++
@@ -556,11 +557,12 @@ partial def anteLoop (stdin : IO.FS.Stream) (a : AState) : IO Unit := do
         IO.println ("| " ++ d)
       anteLoop stdin a'
     else if l.startsWith "setprices " then
-      -- governance sets the settlement gas prices: "denom:price,denom:price", kept in denomination order as sdk.DecCoins are
+      -- governance sets the settlement gas prices: "denom:price,denom:price"; the list is stored as given, and the first configured
+      -- denomination is the first one listed
       let ps := (((l.drop 10).toString.splitOn ",").filter (· != "")).map (fun p =>
         let kv := p.splitOn ":"
         ((kv.getD 0 "").toList, (decTok (kv.getD 1 "0")).toNat))
-      let a' : AState := { a with prices := sortBy (fun x y => strLt x.1 y.1) ps }
+      let a' : AState := { a with prices := ps }
       IO.println "< ok"
       for d in dumpAnte a' do
         IO.println ("| " ++ d)
